@@ -26,6 +26,8 @@ MANIFEST = {
             "radius queries). A history that closes with a deferred index or commit pending is outside the statement and not explored.",
     "technique": "explicit-state BFS over operation histories of the real object with canonical-state de-duplication; differential oracle original vs reopened",
 }
+MANIFEST["text"] += " " + (
+    'Added after the seeding waves: reopening is enabled whenever nothing is uncommitted (a deferred index is a persistent, self-consistent state of the file).')
 BUDGET = {"quick": 300, "thorough": 1800}
 RULE = ("cases = (backend, metric flag, projection settings, label kind, first operation); below each a BFS to the stated depth. "
         "states = distinct canonical (snapshot, pending flags) states reached, transitions = operations executed on the real object "
